@@ -55,7 +55,7 @@ from fractions import Fraction
 
 VERIF = os.path.dirname(os.path.dirname(os.path.abspath(__file__)))
 STUB = os.path.join(VERIF, "pystub")
-DEFAULT_STYLE = "/repo/tools/style/style.py"
+DEFAULT_STYLE = os.path.join(os.environ.get("RAWR_REPO", "/repo"), "tools/style/style.py")
 DEFAULT_DRIVER = os.environ.get("RAWR_DRIVER", os.path.join(VERIF, "lean/.lake/build/bin/driver"))
 DEFAULT_STYLEDRIVER = os.environ.get("RAWR_STYLEDRIVER", os.path.join(VERIF, "lean/.lake/build/bin/styledriver"))
 REPLAYS = os.path.join(VERIF, "replays")
